@@ -198,6 +198,18 @@ func genConst(r *hlib.Rng, kind string) enode {
 
 // genArg produces an argument of Expr of (roughly) the wanted kind.
 func genArg(r *hlib.Rng, cols []genCol, kind string, depth int, malformed bool) enode {
+	a := genArg0(r, cols, kind, depth, malformed)
+	if r.Chance(1, 5) {
+		// the same argument as an Expression value: Val(x) (a column, a constant, or an already built expression)
+		var e qframe.Expression
+		if p, _ := hlib.Recover(func() { e = qframe.Val(a.goV) }); !p {
+			return enode{e, "(EBuilt (new_expr " + a.coq + "))", "Val(" + a.desc + ")"}
+		}
+	}
+	return a
+}
+
+func genArg0(r *hlib.Rng, cols []genCol, kind string, depth int, malformed bool) enode {
 	if malformed && r.Chance(1, 12) {
 		return enode{[]byte("x"), "EOther", "[]byte"}
 	}
@@ -268,7 +280,7 @@ func genCall(r *hlib.Rng, cols []genCol, kind string, depth int, malformed bool)
 
 func evalCase(r *hlib.Rng, s *hlib.Suite) {
 	qf, cols := genFrame(r, nil)
-	qf, hist := derive(r, qf, cols, s)
+	qf, cols, hist := deriveCols(r, qf, cols, s)
 	malformed := r.Chance(1, 4)
 	caseStrings = map[string]bool{}
 	for _, sv := range strPool {
@@ -318,4 +330,154 @@ func evalCase(r *hlib.Rng, s *hlib.Suite) {
 		}
 	}
 	s.Add(fmt.Sprintf("FEval %s %s %s %s %s %s", coqFrame(in), upperTable(in, od), rc.coq(), hlib.Str(dst), top.coq, coqFrame(od)), desc, qf.Len() > 0)
+}
+
+// ---------------------------------------------------------------- plain contexts (no recorder)
+
+// pollute customises a context of its own — overriding built-in names with functions of different behaviour and
+// adding a private name — and uses it once.  Contexts are independent values: nothing of this may be visible
+// through the default context or through any other fresh context afterwards.
+func pollute(qf qframe.QFrame, intCol string) {
+	c := eval.NewDefaultCtx()
+	_ = c.SetFunc("abs", func(x int) int { return 424242 })
+	_ = c.SetFunc("abs", func(x float64) float64 { return 42.4242 })
+	for _, n := range []string{"+", "-", "*"} {
+		_ = c.SetFunc(n, func(x, y int) int { return 31337 })
+		_ = c.SetFunc(n, func(x, y float64) float64 { return 3.1337 })
+	}
+	_ = c.SetFunc("onlyhere", func(x int) int { return x + 1 })
+	_ = c.SetFunc("onlyhere", func(x float64) float64 { return x + 1 })
+	if intCol != "" {
+		_ = qf.Eval("polluted", qframe.Expr("abs", types.ColumnName(intCol)), eval.EvalContext(c))
+	}
+}
+
+// plainEvalCase: depth-1 expressions over int/float columns evaluated with the DEFAULT context (none given, or a
+// fresh NewDefaultCtx()), after another context was customised.  The function tables of the model are computed
+// with the library's own function package, row by row over the physical cells.
+func plainEvalCase(r *hlib.Rng, s *hlib.Suite) {
+	kind := []string{"int", "float"}[r.Intn(2)]
+	qf, cols := genFrame(r, []string{kind, kind})
+	qf, cols, hist := deriveCols(r, qf, cols, s)
+	caseStrings = map[string]bool{}
+	var cs []genCol
+	for _, c := range cols {
+		if c.kind == kind {
+			cs = append(cs, c)
+		}
+	}
+	c1, c2 := cs[r.Intn(len(cs))], cs[r.Intn(len(cs))]
+	if r.Chance(2, 3) {
+		ic := ""
+		if kind == "int" {
+			ic = c1.name
+		}
+		pollute(qf, ic)
+		s.Count("eval-plain-after-customised-context")
+	}
+	T := map[string]string{"int": "TInt", "float": "TFloat"}[kind]
+	in := qframe.VerifDump(qf)
+	cell := func(c genCol, p int) (string, interface{}) {
+		if kind == "int" {
+			return cInt(c.ints[p]), c.ints[p]
+		}
+		return cFloat(c.floats[p]), c.floats[p]
+	}
+	n := len(c1.ints) + len(c1.floats)
+	ap1 := func(x interface{}) string {
+		if kind == "int" {
+			return cInt(function.AbsI(x.(int)))
+		}
+		return cFloat(math.Abs(x.(float64)))
+	}
+	ap2 := func(op string, x, y interface{}) string {
+		if kind == "int" {
+			f := map[string]func(int, int) int{"+": function.PlusI, "-": function.MinusI, "*": function.MulI}[op]
+			return cInt(f(x.(int), y.(int)))
+		}
+		f := map[string]func(float64, float64) float64{"+": function.PlusF, "-": function.MinusF, "*": function.MulF}[op]
+		return cFloat(f(x.(float64), y.(float64)))
+	}
+	var goE qframe.Expression
+	var coqE, desc, entry string
+	form := r.Intn(5)
+	op := []string{"+", "-", "*"}[r.Intn(3)]
+	switch form {
+	case 0: // unary built in
+		goE = qframe.Expr("abs", types.ColumnName(c1.name))
+		coqE = "(EBuilt (expr_call " + hlib.Str("abs") + " [(EColName " + hlib.Str(c1.name) + ")]))"
+		desc = "abs(col(" + c1.name + "))"
+		it := []string{}
+		for p := 0; p < n; p++ {
+			cx, x := cell(c1, p)
+			it = append(it, "("+cx+", "+ap1(x)+")")
+		}
+		entry = "((" + T + ", false, " + hlib.Str("abs") + "), (F1 " + T + " " + T + " " + hlib.List(dedup(it)) + "))"
+	case 1: // a name that only the customised context knows
+		goE = qframe.Expr("onlyhere", types.ColumnName(c1.name))
+		coqE = "(EBuilt (expr_call " + hlib.Str("onlyhere") + " [(EColName " + hlib.Str(c1.name) + ")]))"
+		desc = "onlyhere(col(" + c1.name + "))"
+		entry = ""
+	default:
+		var k interface{} = intPool[r.Intn(8)]
+		kc := ""
+		if kind == "float" {
+			k = floatPool[r.Intn(len(floatPool))]
+			kc = cFloat(k.(float64))
+		} else {
+			kc = cInt(k.(int))
+		}
+		it := []string{}
+		var a1, a2, d1, d2 string
+		var g1, g2 interface{}
+		switch form {
+		case 2: // col op col
+			g1, g2 = types.ColumnName(c1.name), types.ColumnName(c2.name)
+			a1, a2 = "(EColName "+hlib.Str(c1.name)+")", "(EColName "+hlib.Str(c2.name)+")"
+			d1, d2 = "col("+c1.name+")", "col("+c2.name+")"
+			for p := 0; p < n; p++ {
+				cx, x := cell(c1, p)
+				cy, y := cell(c2, p)
+				it = append(it, "("+cx+", "+cy+", "+ap2(op, x, y)+")", "("+cy+", "+cx+", "+ap2(op, y, x)+")")
+			}
+		case 3: // col op const
+			g1, g2 = types.ColumnName(c1.name), k
+			a1, a2 = "(EColName "+hlib.Str(c1.name)+")", "(EConst "+kc+")"
+			d1, d2 = "col("+c1.name+")", fmt.Sprint(k)
+			for p := 0; p < n; p++ {
+				cx, x := cell(c1, p)
+				it = append(it, "("+cx+", "+kc+", "+ap2(op, x, k)+")", "("+kc+", "+cx+", "+ap2(op, k, x)+")")
+			}
+		default: // const op col
+			g1, g2 = k, types.ColumnName(c1.name)
+			a1, a2 = "(EConst "+kc+")", "(EColName "+hlib.Str(c1.name)+")"
+			d1, d2 = fmt.Sprint(k), "col("+c1.name+")"
+			for p := 0; p < n; p++ {
+				cx, x := cell(c1, p)
+				it = append(it, "("+cx+", "+kc+", "+ap2(op, x, k)+")", "("+kc+", "+cx+", "+ap2(op, k, x)+")")
+			}
+		}
+		goE = qframe.Expr(op, g1, g2)
+		coqE = "(EBuilt (expr_call " + hlib.Str(op) + " " + hlib.List([]string{a1, a2}) + "))"
+		desc = op + "(" + d1 + ", " + d2 + ")"
+		entry = "((" + T + ", true, " + hlib.Str(op) + "), (F2 " + T + " " + hlib.List(dedup(it)) + "))"
+	}
+	dst := dstName(r, cols, false)
+	fresh := r.Bool()
+	d := map[string]interface{}{"op": "eval", "context": map[bool]string{true: "fresh NewDefaultCtx()", false: "none given"}[fresh], "dst": dst, "expr": desc, "derivation": hist, "props": []string{"C07", "C10", "C01"}}
+	od, ok := runOp(s, qf, d, func() qframe.QFrame {
+		if fresh {
+			return qf.Eval(dst, goE, eval.EvalContext(eval.NewDefaultCtx()))
+		}
+		return qf.Eval(dst, goE)
+	})
+	if !ok {
+		return
+	}
+	s.Count("eval-plain-context")
+	ctx := "[]"
+	if entry != "" {
+		ctx = "[" + entry + "]"
+	}
+	s.Add(fmt.Sprintf("FEval %s %s %s %s %s %s", coqFrame(in), upperTable(in, od), ctx, hlib.Str(dst), coqE, coqFrame(od)), d, qf.Len() > 0)
 }
